@@ -33,7 +33,7 @@ Print Assumptions reachable_not_stuck.
 
 (* non-vacuity: a diamond  0 -> 1 -> 3, 0 -> 2 -> 3, source of 2 items, capacity 1 *)
 Definition dia : cfg := {| nn := 4; edges := [(0,1);(0,2);(1,3);(2,3)];
-                           slen := fun v => if Nat.eqb v 0 then Some 2 else None; cap := 1 |}.
+                           slen := fun v => if Nat.eqb v 0 then Some 2 else None; cap := 1; epar := fun _ => false |}.
 Lemma dia_wf : wf dia (fun _ => 2).
 Proof.
   constructor; simpl.
